@@ -159,11 +159,11 @@ func runC17Script(t *testing.T, r *Run, sc *c17Script) {
 			defer mu.Unlock()
 			if c.Kind == OpUpload && c.Key == "checkpoint" && failNext {
 				failNext = false
-				return Decision{Apply: false, Err: errInjected}
+				return Decision{Apply: false, Err: rotatingInjectedErr()}
 			}
 			if c.Kind == OpLockReplace && fatalNext {
 				fatalNext = false
-				return Decision{Apply: false, Err: errInjected}
+				return Decision{Apply: false, Err: rotatingInjectedErr()}
 			}
 			return decideOK
 		}
